@@ -43,6 +43,12 @@ def run(ctx, ss):
     from .c09 import c09_5
     ctx.guard("C01.8", lambda c, s: _as(c, s, c09_5, "C01.8"), ss)
     ctx.guard("C01.9", lambda c, s: _as(c, s, c05_3, "C01.9"), ss)
+    # what a table query reports depends on this parser's parsed text only: the observation functions write no parser /
+    # class / module state (a cache shared between parsers would make one text's tables show up for another)
+    from .c09 import no_state_effects
+    for q_ in ("DecFileParser._find_decay_modes", "DecFileParser.list_decay_modes", "DecFileParser.list_decay_mother_names", "DecFileParser._decay_mode_details"):
+        ff_, _fl = fn(ss, DEC, q_)
+        ctx.guard("C01.8", no_state_effects, ss, "C01.8", ff_, True)
 
 
 # ---------------------------------------------------------------------------------------
